@@ -752,8 +752,10 @@ Section Gov.
     forallb (fun pq : proposal * proposal =>
                negb (is_open (fst pq) && (p_status (snd pq) =? ST_REJECTED) && by_tally (snd pq)) || avail_ok b (snd pq)) (olds a b).
 
-  Definition cl_bound (b : state) : bool :=
-    forallb (fun q : proposal => p_avail q <=? h_total (p_hdr q)) (s_props b).
+  Definition cl_bound (a b : state) : bool :=
+    forallb (fun pq : proposal * proposal =>
+               (p_avail (snd pq) <=? h_total (p_hdr (snd pq))) || negb (p_avail (fst pq) <=? h_total (p_hdr (fst pq)))) (olds a b) &&
+    forallb (fun q : proposal => p_avail q <=? h_total (p_hdr q)) (news a b).
 
   Definition step_ok (accts nodes : list N) (a : state) (o : op) (rc : N) (b : state) : N :=
     if negb (cl_final a b) then 1
@@ -766,7 +768,7 @@ Section Gov.
     else if negb (cl_object accts nodes a b) then 8
     else if negb (cl_header a b) then 9
     else if negb (cl_avail a b) then 10
-    else if negb (cl_bound b) then 11
+    else if negb (cl_bound a b) then 11
     else 0.
 
   (** trace = list of (op, rc, state after); returns 0 or step * 16 + clause *)
@@ -776,6 +778,16 @@ Section Gov.
     | (o, rc, b) :: t =>
       let c := step_ok accts nodes a o rc b in
       if c =? 0 then trace_ok accts nodes b t (k + 1) else k * 16 + c
+    end.
+
+  (** the same, ignoring the listed (step * 16 + clause) codes: used to look behind an instance
+      of a listed finding for further violations *)
+  Fixpoint trace_ok_skip (skip : list N) (accts nodes : list N) (a : state) (tr : list (op * N * state)) (k : N) : N :=
+    match tr with
+    | [] => 0
+    | (o, rc, b) :: t =>
+      let c := step_ok accts nodes a o rc b in
+      if (c =? 0) || existsb (N.eqb (k * 16 + c)) skip then trace_ok_skip skip accts nodes b t (k + 1) else k * 16 + c
     end.
 
   (** model = implementation, step by step: index of the first difference *)
@@ -836,10 +848,10 @@ Definition pool_sem (pool : list bexp) (i : N) (a r t : N) : bool :=
     difference under the first configuration | 1000 outside the model's domain | 999 genesis differs) *)
 Definition check_case (pool : list bexp) (accts nodes weights : list N)
            (strat : list (N * (bool * N * string))) (init : @state N)
-           (tr : list (@op N * N * @state N)) (cfgs : list N) : N * N :=
+           (tr : list (@op N * N * @state N)) (cfgs skip : list N) : N * N :=
   let sem := pool_sem pool in
   let st0 := init_state weights strat in
-  let p := trace_ok N.eqb sem accts nodes init tr 0 in
+  let p := trace_ok_skip N.eqb sem skip accts nodes init tr 0 in
   let ops := map (fun x : @op N * N * @state N => fst (fst x)) tr in
   let m :=
       if negb (forallb bwf pool) then 1000
